@@ -1,4 +1,6 @@
-"""C12 finding: the "Uses" list of an entity that uses two or more modules changes from run to run even with
+"""C12 finding, FIXED by the Uses repair (/verif/scratch/c12fix_uses.patch: the list is rendered through the
+filter sort_by_name; `uses` stays a set); on a tree with the repair demonstrate() returns False (regression demo).
+Before the repair: the "Uses" list of an entity that uses two or more modules changes from run to run even with
 PYTHONHASHSEED fixed.  FortranCodeUnit.correlate ends with `self.uses = set([m[0] for m in self.uses])`: a set
 of module objects, hashed by id(); the templates walk it.
 Expected: the same order in every run (source order).
@@ -13,8 +15,8 @@ SRC = {"src/a.f90": "module ma\nend module ma\n", "src/b.f90": "module mb\nend m
 def demonstrate(verbose=True):
     if verbose:
         print("eight runs, all with PYTHONHASHSEED=3, same directory")
-    needed, clean = explain(runs(SRC, {}, [3] * 8), ["uses-set-order"], verbose)
-    return "uses-set-order" in needed and clean
+    needed, clean = explain(runs(SRC, {}, [3] * 8), [], verbose)
+    return not clean
 
 
 if __name__ == "__main__":
